@@ -184,9 +184,12 @@ func c15Profile(tier string) *eng.Profile {
 		ObsBefore:  true,
 		ReopenLeaf: true,
 		DepthFor: func(c core.Cfg) int {
-			d := 3
+			d := 4
 			if c.Mode == core.K {
-				d = 4 // 9-op alphabet
+				d = 5 // 9-op alphabet
+			}
+			if c.RW == core.M {
+				d = 3
 			}
 			if tier == "thorough" {
 				d++
@@ -337,10 +340,20 @@ func c19Profile(tier string, kvOnly bool) *eng.Profile {
 	var ops []core.Op
 	var queries []core.Call
 	if kvOnly {
-		ops = kvOps([]string{"a"}, []string{"a", "ab", "b"}, true)
+		ops = kvOps([]string{"a"}, []string{"a", "ab"}, true)
 		queries = kvObs([]string{"a", "zz"}, []string{"a", "ab", "b", "zz"}, []string{"", "a", "ab", "b", "c"}, []string{"", "a", "b"}, false)
 	} else {
-		ops = mixedOps(base, true)
+		for _, o := range mixedOps(base, true) {
+			hasSPop := false
+			for _, c := range o.Calls {
+				if c.F == "SPop" {
+					hasSPop = true // any member is a correct answer, so the contents differ legitimately
+				}
+			}
+			if !hasSPop {
+				ops = append(ops, o)
+			}
+		}
 		queries = mixedObs()
 	}
 	variants := c19Variants(kvOnly)
@@ -401,11 +414,8 @@ func c19Profile(tier string, kvOnly bool) *eng.Profile {
 			}
 		},
 	}
-	if kvOnly {
-		p.Depth = 3
-	}
 	if tier == "thorough" {
-		p.Depth++
+		p.Depth = 3
 	}
 	return p
 }
